@@ -16,27 +16,27 @@ NA = {
 }
 CHECKS = {
  "C09": dict(engine="histsim", category="exploration", design_ref="DESIGN.md section 3 / C09",
-   text="Seeded search over histories of generator use and of the shared standardisation memo: Perm.of_length / up_to_length / first and MeshPatt.of_length generators are live tasks advanced in seeded interleavings and compared item by item with an independent recursive lexicographic enumeration; rank / unrank (with and without length) on seeded and boundary ranks against a Lehmer-code reference, mutual consistency with < ; standardisation of sequences with repetitions over ints, floats, bools, Fractions, strings and tuples - including equal-but-distinct memo keys - before and after the lru_cache is cleared or flooded past its capacity; every notation round trip and the three documented error cases of the validated constructor; mesh rank / unrank bit order.",
+   text="Seeded search over histories of generator use and of the shared standardisation memo: Perm.of_length / up_to_length / first and MeshPatt.of_length generators are live tasks advanced in seeded interleavings and compared item by item with an independent recursive lexicographic enumeration; rank / unrank (with and without length) on seeded and boundary ranks against a Lehmer-code reference, mutual consistency with < ; standardisation of sequences with repetitions over ints, floats, bools, Fractions, strings and tuples - including equal-but-distinct memo keys - before and after the lru_cache is cleared or flooded past its capacity, after interrupted standardisations and interrupted generator consumers, with 40 % of the histories starting on the memo left by earlier histories of the same process; results must be Perm objects with exact int entries; every notation round trip and the three documented error cases of the validated constructor; mesh rank / unrank bit order.",
    note="Trusted: ref/order.py (cross-checked against itertools.permutations at start-up), ref/patterns.std. Lengths <= 6-7 for generators, ranks < 50000, str round trip for length <= 10, integer notation where no leading zero is lost.",
    technique="deterministic cooperative simulation of generator interleavings and memo histories (clear / eviction / equal-but-distinct keys), seeded search, independent order / rank reference"),
  "C13": dict(engine="histsim", category="exploration", design_ref="DESIGN.md section 3 / C13",
-   text="Seeded search over call histories on the process-wide memo tables: a pool of bases over a small shared universe of permutations (including rotated / inverted images of each other) is queried through every entry point - permutils functions, Av methods, the poly / insenc CLI functions in-process - with the basis delivered as list, tuple, set, frozenset, Basis, dict view, deque, generator, one-shot iterator, map or reversed object, permuted and with repetitions, and on its eight symmetric images (computed by the reference, not by permuta), with the memo tables flushed as a fault; every verdict is compared with the structure theorems re-implemented by split search, and the verdicts are cross-checked against real enumeration through Av (Erdos-Szekeres bound, no empty level, Fibonacci lower bound).",
+   text="Seeded search over call histories on the process-wide memo tables: a pool of bases over a small shared universe of permutations (including rotated / inverted images of each other) is queried through every entry point - permutils functions, Av methods, the poly / insenc CLI functions in-process - with the basis delivered as list, tuple, set, frozenset, Basis, dict view, deque, generator, one-shot iterator, map or reversed object, permuted and with repetitions, and on its eight symmetric images (computed by the reference, not by permuta), with the memo tables flushed, calls interrupted at a seeded executed line, all class objects recycled (Av.clear_cache + gc + re-creation in another order) and 40 % of the histories starting on the memo tables left by earlier histories of the same process; every verdict is compared with the structure theorems re-implemented by split search, and the verdicts are cross-checked against real enumeration through Av (Erdos-Szekeres bound, no empty level, Fibonacci lower bound).",
    note="Trusted: ref/growth.py (ten classes by brute-force split search, pinned by 2^n-n, 2^(n-1), Fibonacci counts and by the inverse relation between vertical and horizontal classes). Basis permutations of length <= 5 (6 in thorough), enumeration to length 6-7.",
    technique="deterministic simulation of call histories over shared memo tables with stream-kind and memo-loss faults, seeded search, structure-theorem oracle plus enumeration cross-checks"),
  "C20": dict(engine="histsim+simfs", category="fault_enumeration", design_ref="DESIGN.md section 3 / C20",
-   text="Three parts. (1) Shipped data: complete enumeration - every shipped file is read through the real read_bisc_file and every level 0..N is compared with an independent definition of the named property on all n! permutations (about 1.9 million pairs, full stated length in both tiers). (2) Seeded write/read/store/load histories on an in-memory file system behind the modules' open / Path / os, strict oracle: a read returns exactly the dataset last written under that name, a never-written name is reported invalid, every automaton loaded from the database (also unions, also after restarts and chdir) is language-equivalent to a fresh computation; a sample of the histories also runs on a real temporary directory and must observe the same. (3) The same histories under injected faults: for histories of at most 6 operations every single-fault placement (each I/O call x error/crash x three write offsets), for longer ones seeded placements of up to 3 faults, plus power-loss restarts; relaxed oracle: old, new or reported invalid - never other data, never an automaton of another language.",
+   text="Three parts. (1) Shipped data: complete enumeration - every shipped file is read through the real read_bisc_file and every level 0..N is compared with an independent definition of the named property on all n! permutations (about 1.9 million pairs, full stated length in both tiers). (2) Seeded write/read/store/load histories on an in-memory file system behind the modules' open / Path / os, strict oracle: a read returns exactly the dataset last written under that name, a never-written name is reported invalid, every automaton loaded from the database (also unions, also after restarts and chdir) is language-equivalent to a fresh computation; a sample of the histories also runs on a real temporary directory and must observe the same. (3) The same histories under injected faults: for histories of at most 6 operations every single-fault placement (each I/O call x error/crash x three write offsets), for longer ones seeded placements of up to 3 faults, plus power-loss restarts; relaxed oracle: old, new or reported invalid - never other data, never an automaton of another language. (4) Concurrent mode: 2-3 writer / reader tasks on one simulated directory, every I/O call a scheduling point of the thread simulator, same 'never other data' oracle plus a fresh-process sweep of the database afterwards.",
    note="Trusted: ref/families.py (independent definitions pinned by OEIS sequences), ref/dfa.py (product BFS), the simfs model (validated against a real directory on sampled histories), PinWords.make_dfa_for_perm of the tree under test as the 'fresh computation'. Two emptied shipped files are listed known findings.",
    technique="deterministic simulation of storage histories on a fault-injecting in-memory file system (single-fault enumeration + seeded multi-fault search + power loss), reference-model oracle; complete enumeration for the shipped data"),
  "C08": dict(engine="histsim+allocsim", category="exploration", design_ref="DESIGN.md section 3 / C08",
-   text="Seeded search over histories of hash / set / dict / comparison / sort operations on a pool of Perm, MeshPatt, Bivincular/Vincular/CovincularPatt, Basis and MeshBasis objects (most with an equal twin built by another route), with allocation-history faults between any two observations: slot objects of chosen pymalloc size classes held and released, temporaries churned, deep recursion, gc, equal objects rebuilt, and id reuse (an object freed and a different one built at its address). Invariants after every step: first-observed hash never changes, equality matches the abstract value both ways, equal implies equal hash, lookups through twins succeed, trichotomy / antisymmetry / transitivity / sort stability of the order, (length, lexicographic) order for permutations. Every run ends with all objects hashed before and after a block of every small size class is taken. Batches also run under two other PYTHONHASHSEED values.",
+   text="Seeded search over histories of hash / set / dict / comparison / sort operations on a pool of Perm, MeshPatt, Bivincular/Vincular/CovincularPatt, Basis and MeshBasis objects (most with an equal twin built by another route), with allocation-history faults between any two observations: slot objects of chosen pymalloc size classes held and released, temporaries churned, deep recursion, gc, equal objects rebuilt, id reuse (an object freed and a different one built at its address), hash computations interrupted at a seeded line, objects derived from already-hashed ones through library operations, floods of thousands of distinct patterns (cache eviction) and deliberately constructed unequal patterns with equal hashes. Invariants after every step: first-observed hash never changes, equality matches the abstract value both ways, equal implies equal hash, lookups through twins succeed, trichotomy / antisymmetry / transitivity / sort stability of the order, (length, lexicographic) order for permutations. Every run ends with all objects hashed before and after a block of every small size class is taken. Batches also run under two other PYTHONHASHSEED values.",
    note="Trusted: abstract values computed from the JSON descriptors. The simulator chooses allocation events, not addresses: exposing an address-derived hash relies on pymalloc reusing a freed block (robust in practice). Cross-kind order (Perm vs mesh) is not demanded by the property and not checked.",
    technique="deterministic simulation of operation histories with allocation-history fault injection (allocsim), seeded search, abstract-value oracle"),
  "C01": dict(engine="histsim", category="exploration", design_ref="DESIGN.md section 3 / C01",
-   text="Seeded search over search histories on shared pattern objects: occurrence generators are live tasks advanced in seeded interleavings (several generators of one pattern object on different targets at once), mixed with contains / avoids / avoids_set / in / counts / contained_in / avoided_by, with the per-object search-table memo flushed, pre-warmed, copied and pickled; every listing, prefix, boolean and count is compared with the definition (all index combinations filtered by order-isomorphism). In addition the whole bounded input domain (patterns <= 4 x targets <= 6 in quick, <= 5 x <= 7 in thorough) is enumerated completely, each pattern object reused for all targets. Histories are sampled, not proved.",
+   text="Seeded search over search histories on shared pattern objects: occurrence generators are live tasks advanced in seeded interleavings (several generators of one pattern object on different targets at once), mixed with contains / avoids / avoids_set / in / counts / contained_in / avoided_by, with the per-object search-table memo flushed, pre-warmed, copied and pickled, searches interrupted at a seeded executed line, pattern objects recycled at the same address and patterns derived from used objects through library operations; every listing, prefix, boolean and count is compared with the definition (all index combinations filtered by order-isomorphism). In addition the whole bounded input domain (patterns <= 4 x targets <= 6 in quick, <= 5 x <= 7 in thorough) is enumerated completely, each pattern object reused for all targets. Histories are sampled, not proved.",
    note="Trusted: ref/patterns.py (combinations + order-isomorphism, pinned by hand-checked listings). Lengths bounded as stated.",
    technique="deterministic cooperative simulation of search histories with interleaved live generators and memo faults, seeded search plus complete enumeration of the bounded input domain, by-definition oracle"),
  "C02": dict(engine="histsim", category="exploration", design_ref="DESIGN.md section 3 / C02",
-   text="Seeded search over query histories: a pool of 1-3 classes (classical and mesh bases) is driven through 5-30 operations - counts, enumerations, membership, subclass tests, creation and partial consumption of of_length / up_to_length / first iterators, clear_cache, re-creation from an equal basis in another form, other classes, dropped references and gc - and every response and every iterator prefix is compared with brute-force avoider sets. Sampling of histories, not proof; ten history/compaction/cache mutants are found within the quick budget, three behaviour-preserving refactors stay silent; three genuine defects of the pinned tree are listed as known findings.",
+   text="Seeded search over query histories: a pool of 1-3 classes (classical and mesh bases) is driven through 5-30 operations - counts, enumerations, membership, subclass tests, creation and partial consumption of of_length / up_to_length / first iterators, clear_cache, re-creation from an equal basis in another form, other classes, dropped references and gc - and every response and every iterator prefix is compared with brute-force avoider sets. Fault kinds: calls interrupted at a seeded executed line (the caches keep whatever the call had done), all class objects recycled (dropped incl. class cache + gc, re-created in another order, so anything remembered per id() is stale), a few per cent of runs on large classes / deeper levels / 3-6x longer histories. Sampling of histories, not proof; eleven history/compaction/cache mutants are found within the quick budget, three behaviour-preserving refactors stay silent; three genuine defects of the pinned tree are listed as known findings.",
    note="Trusted: ref/classes.py (naive filter for mesh bases, max-insertion generation cross-checked against it for classical ones, pinned by Catalan / 2^(n-1) / C(n,2)+1 / Baxter). Lengths <= 6-7 (classical) and <= 5-6 (mesh). Order within a level and object identity are not part of the property and are not gated.",
    technique="deterministic cooperative simulation of operation histories with live iterator tasks and history faults, seeded search, brute-force reference oracle"),
  "C07": dict(engine="threadsim", category="exploration", design_ref="DESIGN.md section 3 / C07",
